@@ -10,7 +10,8 @@ from harness import ops
 from harness import surface
 
 GEN = ['Gen/GenConsts.v', 'Gen/GenRoutes.v', 'Gen/GenSurfaceSpec.v']
-DEPS = {'C14': GEN + ['Spec/Surface.v', 'Proofs/C14.v'],
+DEPS = {'C14': GEN + ['Spec/Surface.v', 'Proofs/C14.v', 'Gen/GenSchemas.v', 'Model/Json.v', 'Model/Decode.v', 'Spec/Fields.v',
+                      'Proofs/C14f.v'],
         'C16': GEN + ['Spec/Surface.v', 'Spec/Pipeline.v', 'Proofs/C16.v']}
 
 
@@ -125,13 +126,29 @@ def run_c14(tier, out):
             break
         payload['broken'] = ps.get('broken')
         out.violation(payload, text)
+    # which schema each operation validates with at each minor version: learnt from the running code (a spy on
+    # util.extract_json / util.validate_query_params) against the table Spec/Fields.v:schema_at that C14_fields is about
+    sc_n, sc_err = 0, None
+    if common.vo_fresh('Spec/Fields.v'):
+        try:
+            from harness import decode as decode_mod
+            sc_n, sc_err = decode_mod.schema_choice('C14_%s' % tier)
+        except Exception as exc:      # noqa
+            sc_err = 'schema choice stream: %s' % str(exc)[-500:]
+    else:
+        sc_err = 'Spec/Fields.v did not build'
     if broken and not viols:
         what = ps['error'] or ('hygiene: %s' % hyg[:5] if hyg else 'translator failed: %s' % tlog[-600:])
         out.violation({'kind': 'proof-broken', 'theorem_or_file': ps.get('broken') or 'Props/C14.v', 'detail': what,
                        'not_closed': [x for x in ps['theorems'] if not x[1]]},
                       'proof obligation no longer checks: %s' % (ps.get('broken') or what), no_input=True)
+    elif sc_err and not viols:
+        out.violation({'kind': 'correspondence-broken', 'stream': 'schema choice', 'error': sc_err},
+                      'the schema an operation validates with is not the one the theorem C14_fields reads: %s' % sc_err[:300],
+                      no_input=True)
     obligations, discharged = evidence_proof(ps)
     cov = {'obligations': obligations, 'discharged': discharged,
+           'schema_choice_facts': sc_n, 'correspondence_error': sc_err,
            'checker_cmd': 'cd /verif/coq && make -k && coqc -Q . PV Props/C14.v',
            'trusted_base': common.TRUSTED_BASE + ['documented surface transcribed by hand into /verif/spec/surface.json',
                                                   'microversion_parse negotiation is modelled (Spec/Surface.v negotiate)'],
